@@ -208,7 +208,7 @@ func prefixOf(got, full [][]sq.Val) (bool, int) {
 func init() {
 	sim.Register(&sim.Prop{
 		ID: "C12", Engine: "E-PAGE", Level: "fault_enumeration", Fn: runC12, NewEnv: NewEnv,
-		Runs: map[string]int{"quick": 96, "thorough": 1600},
+		Runs: map[string]int{"quick": 256, "thorough": 3200},
 		Rule: "per run: a database written by real SQLite through a drawn history (page size 512/1024/4096, rowid + WITHOUT ROWID tables, indexes, overflow rows) is served from a simulated disk; for EVERY read operation (8 high-level + low-level scans, keys drawn from stored values) first a fault-free execution (n reads), then one faulted execution for every k in 1..n (stride-sampled above 400/4000) x {I/O error, short read} x {transient, permanent}, plus lock failure; evaluations = faulted executions; a run is non-trivial when some operation performs >1 page read; distinct = distinct event logs",
 		Real: append([]string{"btree/record/schema/select code paths on the in-memory simulated disk"}, realAll...),
 		Stub: []string{"file pager replaced by pg.Mem (same copy semantics, same short-read-at-EOF behaviour); POSIX locks replaced by counters"},
